@@ -339,5 +339,4 @@ def check(ctx):
     r_recursion(ctx)
     r_allocation(ctx)
     r_literal_classes(ctx)
-    if ctx.tier == 'thorough':
-        panic_rule(ctx, 'R06.1s', what='the text and JSON entry points (serde configuration)', config='serde')
+    panic_rule(ctx, 'R06.1s', what='the text and JSON entry points (serde configuration)', config='serde')
